@@ -6,10 +6,12 @@ cd /repo || exit 2
 git diff --quiet || { echo "/repo has uncommitted changes"; exit 2; }
 git apply "$patch" || { echo "patch does not apply"; exit 2; }
 export GOFLAGS=-mod=mod GOPROXY=off GOSUMDB=off GOTOOLCHAIN=local
+if [ -z "$SKIP_REPO_TESTS" ]; then
 echo "== repository tests with the change:"
 go build ./... 2>&1 | tail -3
 go test -vet=off -count=1 ./... 2>&1 | grep -v "no test files" | grep -v "^ok" | head -10
 echo "   (only failures are listed above)"
+fi
 for p in "$@"; do
   echo "== check $p"
   s=$(date +%s)
